@@ -28,7 +28,11 @@ package auth
 //@   ensures [user-name] result1 == nil ==> result0 == req.Credentials.User
 
 //@ func (m *Manager) Authenticate
-//@   property C01
+//@   property C01, C02
+//@   assert-call authenticateHTTP: req == caller_req && token == tokenOf(false, caller_req) && m.Method == conf.AuthMethodHTTP
+//@   assert-call authenticateJWT: req == caller_req && m.Method != conf.AuthMethodInternal && m.Method != conf.AuthMethodHTTP && (m.Method == conf.AuthMethodJWT ==> token == tokenOf(m.JWTInHTTPQuery != nil && *m.JWTInHTTPQuery, caller_req))
+//@   ensures [http-method-decides] old(m.Method) == conf.AuthMethodHTTP ==> called(authenticateHTTP) == 1 && called(authenticateJWT) == 0 && (result1 == nil) == (resultof(authenticateHTTP, 1) == nil)
+//@   ensures [jwt-method-decides] old(m.Method) == conf.AuthMethodJWT ==> called(authenticateJWT) == 1 && called(authenticateHTTP) == 0 && (result1 == nil) == (resultof(authenticateJWT, 1) == nil)
 //@   requires req.Credentials != nil
 //@   domain !hasPrefix(req.Path, "~")
 //@   ensures [internal-decision] old(m.Method) == conf.AuthMethodInternal ==> (result1 == nil) == exists(k, 0, len(old(m.InternalUsers)), admits(old(m.InternalUsers)[k], req))
@@ -39,8 +43,34 @@ package auth
 //@   property C02
 //@   requires req.Credentials != nil
 //@   modifies nothing
-//@   def queryAllowed() bool = req.Protocol == ProtocolRTSP || req.Protocol == ProtocolRTMP || (tokenInHTTPQuery && isHTTPReq(req))
-//@   ensures [token-first] req.Credentials.Token != "" ==> result == req.Credentials.Token
-//@   ensures [then-password] req.Credentials.Token == "" && req.Credentials.Pass != "" ==> result == req.Credentials.Pass
-//@   ensures [then-query] req.Credentials.Token == "" && req.Credentials.Pass == "" && queryAllowed() ==> result == queryToken(req.Query)
-//@   ensures [else-none] req.Credentials.Token == "" && req.Credentials.Pass == "" && !queryAllowed() ==> result == ""
+//@   ensures [token-then-password-then-query] result == tokenOf(tokenInHTTPQuery, req)
+
+// C02: with the http method the request is admitted iff it is excluded or the POST succeeded with a 2xx
+// status; the POST goes to the configured address and carries the request's values (and the token).
+
+//@ func (m *Manager) authenticateHTTP
+//@   property C02
+//@   requires req.Credentials != nil
+//@   domain !hasPrefix(req.Path, "~")
+//@   assert-call Marshal: v_val.IP == ipString(req.IP) && v_val.User == req.Credentials.User && v_val.Password == req.Credentials.Pass && v_val.Token == token && v_val.Action == string(req.Action) && v_val.Path == req.Path && v_val.Protocol == string(req.Protocol) && v_val.ID == req.ID && v_val.Query == req.Query && v_val.UserAgent == req.UserAgent
+//@   assert-call Post: url == m.HTTPAddress && contentType == "application/json" && readerBytes(body) == resultof(Marshal, 0) && c.Transport == tr && tr.TLSClientConfig == resultof(MakeConfig)
+//@   assert-call MakeConfig: fingerprint == m.HTTPFingerprint
+//@   ensures [excluded-admitted-without-asking] old(grantsAny(m.HTTPExclude, req)) ==> result1 == nil && called(Post) == 0
+//@   ensures [otherwise-asks-once] !old(grantsAny(m.HTTPExclude, req)) ==> called(Post) == 1 && called(Marshal) == 1
+//@   ensures [admitted-iff-2xx] !old(grantsAny(m.HTTPExclude, req)) ==> (result1 == nil) == (err == nil && res.StatusCode >= 200 && res.StatusCode <= 299)
+//@   ensures [user-name] !old(grantsAny(m.HTTPExclude, req)) && result1 == nil ==> result0 == req.Credentials.User
+
+// C02: with the jwt method the request is admitted only if it is excluded, or a token was supplied, the
+// library verified it (keys, issuer/audience when configured, expiry) and its permission claim grants
+// the action on the path.
+
+//@ func (m *Manager) authenticateJWT
+//@   property C02
+//@   domain !hasPrefix(req.Path, "~")
+//@   assert-call ParseWithClaims: tokenString == token && token != "" && cc.permissionsKey == m.JWTClaimKey && len(options) == b2i(m.JWTIssuer != "") + b2i(m.JWTAudience != "")
+//@   assert-call WithIssuer: iss == m.JWTIssuer && iss != ""
+//@   assert-call WithAudience: len(aud) == 1 && aud[0] == m.JWTAudience && aud[0] != ""
+//@   ensures [excluded-admitted] old(grantsAny(m.JWTExclude, req)) ==> result1 == nil
+//@   ensures [admitted-only-with-verified-granting-token] !old(grantsAny(m.JWTExclude, req)) && result1 == nil ==> token != "" && called(ParseWithClaims) == 1 && resultof(ParseWithClaims, 1) == nil && grantsAny(cc.permissions, req) && result0 == cc.Subject
+//@   ensures [rejected-when-claim-does-not-grant] !old(grantsAny(m.JWTExclude, req)) && called(ParseWithClaims) == 1 && !grantsAny(cc.permissions, req) ==> result1 != nil
+//@   ensures [issuer-checked-when-configured] called(ParseWithClaims) == 1 ==> called(WithIssuer) == b2i(m.JWTIssuer != "") && called(WithAudience) == b2i(m.JWTAudience != "")
